@@ -73,7 +73,8 @@ namespace worlds
                 ",\"velocity models\":[{\"model\":\"uniform raw\",\"velocity\":[0.01,0.02,0.03]}]}");
     f.push_back("{\"model\":\"continental plate\",\"name\":\"CP\",\"max depth\":" + (o.many_depth_points ? many : o.depth_points ? "[[1.5e5],[0.9e5,[" + P(-2.5,0) + "," + P(-5,5) + "]],[2.1e5,[" + P(-1,-3) + "]]]" : std::string("1.5e5")) + ",\"coordinates\":" + sq(-5,0,-5,5) +
                 ",\"temperature models\":[{\"model\":\"linear\",\"max depth\":1.5e5,\"top temperature\":300,\"bottom temperature\":1400" + std::string(o.partial ? ",\"operation\":\"add\"" : "") + "}]"
-                ",\"composition models\":[{\"model\":\"uniform\",\"compositions\":[0]" + std::string(o.partial ? ",\"operation\":\"add\"" : "") + "}]"
+                ",\"composition models\":[{\"model\":\"uniform\",\"compositions\":[0]" + std::string(o.partial ? ",\"operation\":\"add\"" : "") + "}" +
+                (o.random_models ? ",{\"model\":\"random\",\"compositions\":[3],\"min value\":[0.2],\"max value\":[0.7],\"operation\":\"replace defined only\"}" : "") + "]"
                 ",\"grains models\":[" + uniform_grains("[0]", 1, 15) + (o.random_models ? ",{\"model\":\"random uniform distribution\",\"compositions\":[1],\"grain sizes\":[-1],\"normalize grain sizes\":[true]}" : "") + "]"
                 ",\"velocity models\":[{\"model\":\"uniform raw\",\"velocity\":[-0.04,0.05,0.001]}]}");
     f.push_back("{\"model\":\"oceanic plate\",\"name\":\"OP\",\"max depth\":" + (o.many_depth_points ? many_points(0, 5, -5, 5, 0.7e5, 1.3e5, 37, "1e5") : std::string("1e5")) + ",\"coordinates\":" + sq(0,5,-5,5) +
@@ -88,7 +89,7 @@ namespace worlds
                 ",\"velocity models\":[{\"model\":\"uniform raw\",\"velocity\":[0.06,-0.01,0.002]}]}");
     f.push_back("{\"model\":\"plume\",\"name\":\"PL\",\"min depth\":2e4,\"max depth\":6e5,\"coordinates\":[" + P(-2,2) + "," + P(-2.2,2.1) + "," + P(-2.5,2.5) + "]"
                 ",\"cross section depths\":[1e5,2e5,4e5],\"semi-major axis\":[" + num(1.2*s) + "," + num(0.8*s) + "," + num(1.0*s) + "]"
-                ",\"eccentricity\":[0.3,0.5,0.0],\"rotation angles\":[" + num(std::fmod(350 + o.plume_azimuth_shift + 720, 360.0)) + "," + num(std::fmod((o.variant == 1 ? 60 : 10) + o.plume_azimuth_shift + 720, 360.0)) + "," + num(std::fmod((o.variant == 1 ? 20 : 40) + o.plume_azimuth_shift + 720, 360.0)) + "]"
+                ",\"eccentricity\":" + std::string(o.variant == 1 ? "[0.3,0.9,0.8]" : "[0.3,0.5,0.0]") + ",\"rotation angles\":[" + num(std::fmod(350 + o.plume_azimuth_shift + 720, 360.0)) + "," + num(std::fmod((o.variant == 1 ? 60 : 10) + o.plume_azimuth_shift + 720, 360.0)) + "," + num(std::fmod((o.variant == 1 ? 20 : 40) + o.plume_azimuth_shift + 720, 360.0)) + "]"
                 ",\"temperature models\":[{\"model\":\"gaussian\",\"operation\":\"add\",\"centerline temperatures\":[150,250],\"gaussian sigmas\":[0.3,0.4],\"depths\":[5e4,5e5]}]"
                 ",\"composition models\":[{\"model\":\"uniform\",\"compositions\":[3]}]"
                 ",\"grains models\":[" + uniform_grains("[0,1]", 2, 35) + "]"
